@@ -96,6 +96,10 @@ func Witnesses() []Case {
 		// same list was left out when the session was reported established
 		{Cfg: []Beh{a, func() Beh { m := f(3); m.Nec = Authn; m.ListReq = true; return m }()},
 			Script: []Item{hdr, adv(AdvItem{NS: 2, Loc: 1}, AdvItem{NS: 3, Loc: 1, Req: true})}, Fault: "-"},
+		// two configured features of one namespace: the informational one takes the cache slot
+		// of the mandatory one (theorem C01_shared_ns_shadows_mandatory; documented limit)
+		{Cfg: []Beh{{NS: 2, Loc: 1, Negotiable: true, ListReq: true}, {NS: 2, Loc: 2}},
+			Script: []Item{hdr, adv(AdvItem{NS: 2, Loc: 1, Req: true}, AdvItem{NS: 2, Loc: 2})}, Fault: "-"},
 	}
 }
 
@@ -231,6 +235,7 @@ func randomBeh(rnd *common.Rand, ns, loc int, errs bool) Beh {
 	b := Beh{NS: ns, Loc: loc,
 		Nec: bits[rnd.Intn(len(bits))], Proh: bits[rnd.Intn(len(bits))],
 		Negotiable: !rnd.Chance(1, 6), ListReq: rnd.Bool(), Mask: masks[rnd.Intn(len(masks))], Restart: rnd.Chance(1, 3)}
+	b.Layer = b.Restart && rnd.Chance(1, 3)
 	if errs {
 		b.ListErr = rnd.Chance(1, 12)
 		b.ParseErr = rnd.Chance(1, 12)
@@ -261,6 +266,8 @@ func randomPeer(rnd *common.Rand, budget int) func(v *View) (Item, bool) {
 			return Item{Kind: 'H', OK: false}, true
 		case odd < 10:
 			return Item{Kind: 'H', OK: true}, true
+		case odd < 12:
+			return Item{Kind: 'H', NS: 1}, true
 		}
 		if wantHdr {
 			return it, true
@@ -328,7 +335,7 @@ func RandomCase(rnd *common.Rand, faults bool) Case {
 	if rnd.Bool() {
 		st0 |= Received
 	}
-	cs := Case{St0: st0, WS: rnd.Chance(1, 4), Cfg: cfg, Fault: "-", Peer: randomPeer(rnd, 3+rnd.Intn(8))}
+	cs := Case{St0: st0, WS: rnd.Chance(1, 4), Tee: rnd.Chance(1, 4), Cfg: cfg, Fault: "-", Peer: randomPeer(rnd, 3+rnd.Intn(8))}
 	if faults && rnd.Chance(2, 3) {
 		cs.Fault = fmt.Sprint(rnd.Intn(10))
 		if rnd.Bool() {
